@@ -113,6 +113,55 @@ func secondOpinions(c *mc.Ctx, s, u, want []byte, zero bool) {
 	}
 }
 
+// checkCase runs every scalar-multiplication entry point on one (scalar, u)
+// pair against the reference result want (zero = want is the all-zero string).
+func checkCase(c *mc.Ctx, w *mc.W, s, u, want []byte, zero bool) {
+	secondOpinions(c, s, u, want, zero)
+	cas := map[string]string{"scalar": hx(s), "u": hx(u), "want": hx(want)}
+
+	sIn, uIn := append([]byte{}, s...), append([]byte{}, u...)
+	out, err := x25519.X25519(sIn, uIn)
+	switch {
+	case zero && err == nil:
+		w.Fail("X25519/zero-check", fmt.Sprintf("X25519(k=%x, u=%x) returned %x without error, but the RFC 7748 result is all zero (low-order input)", s, u, out), cas)
+	case !zero && err != nil:
+		w.Fail("X25519/spurious-error", fmt.Sprintf("X25519(k=%x, u=%x): %v, but the RFC 7748 result is %x", s, u, err, want), cas)
+	case !zero && !bytes.Equal(out, want):
+		w.Fail("X25519/value", fmt.Sprintf("X25519(k=%x, u=%x)=%x want %x", s, u, out, want), cas)
+	}
+	if !bytes.Equal(sIn, s) || !bytes.Equal(uIn, u) {
+		w.Fail("X25519/input-modified", "X25519 modified its input slices", cas)
+	}
+	var dst [32]byte
+	x25519.ScalarMult(&dst, arr(s), arr(u))
+	if !bytes.Equal(dst[:], want) {
+		w.Fail("ScalarMult/value", fmt.Sprintf("ScalarMult(k=%x, u=%x)=%x want %x", s, u, dst[:], want), cas)
+	}
+	al := arr(u) // dst aliases base
+	x25519.ScalarMult(al, arr(s), al)
+	if !bytes.Equal(al[:], want) {
+		w.Fail("ScalarMult/alias", fmt.Sprintf("ScalarMult(dst=base) k=%x u=%x gave %x want %x", s, u, al[:], want), cas)
+	}
+	ks, kerr := scalar.NewFromBits(refx.Clamp(s))
+	if kerr != nil {
+		w.Fail("Scalar.SetBits", kerr.Error(), cas)
+		return
+	}
+	var mp, mo curve.MontgomeryPoint
+	copy(mp[:], u)
+	if ret := mo.Mul(&mp, ks); ret != &mo || !bytes.Equal(mo[:], want) {
+		w.Fail("MontgomeryPoint.Mul/value", fmt.Sprintf("MontgomeryPoint.Mul(u=%x, clamp(k=%x))=%x want %x", u, s, mo[:], want), cas)
+	}
+	priv, pub := x25519.PrivateKey(*arr(s)), x25519.PublicKey(*arr(u))
+	ss := priv.DiffieHellman(&pub)
+	if !bytes.Equal(ss[:], want) {
+		w.Fail("PrivateKey.DiffieHellman/value", fmt.Sprintf("DiffieHellman(k=%x, u=%x)=%x want %x", s, u, ss[:], want), cas)
+	}
+	if ss.IsZero() != zero {
+		w.Fail("SharedSecret.IsZero", fmt.Sprintf("IsZero()=%v for shared secret %x", ss.IsZero(), ss[:]), cas)
+	}
+}
+
 func run(c *mc.Ctx) {
 	U := alphed.UCoordsSized(c.Seed, c.Pick(10, 40), int64(c.Pick(8, 40)))
 	S := scalarStrings(c.Seed, true, c.Pick(3, 40), c.Thorough)
@@ -156,50 +205,7 @@ func run(c *mc.Ctx) {
 			cls += "+noncanonical-u"
 		}
 		w.Eval(cls, zero || inf.noncanon || !inf.onCurve)
-		secondOpinions(c, s, u, want, zero)
-		cas := map[string]string{"scalar": hx(s), "u": hx(u), "want": hx(want)}
-
-		sIn, uIn := append([]byte{}, s...), append([]byte{}, u...)
-		out, err := x25519.X25519(sIn, uIn)
-		switch {
-		case zero && err == nil:
-			w.Fail("X25519/zero-check", fmt.Sprintf("X25519(k=%x, u=%x) returned %x without error, but the RFC 7748 result is all zero (low-order input)", s, u, out), cas)
-		case !zero && err != nil:
-			w.Fail("X25519/spurious-error", fmt.Sprintf("X25519(k=%x, u=%x): %v, but the RFC 7748 result is %x", s, u, err, want), cas)
-		case !zero && !bytes.Equal(out, want):
-			w.Fail("X25519/value", fmt.Sprintf("X25519(k=%x, u=%x)=%x want %x", s, u, out, want), cas)
-		}
-		if !bytes.Equal(sIn, s) || !bytes.Equal(uIn, u) {
-			w.Fail("X25519/input-modified", "X25519 modified its input slices", cas)
-		}
-		var dst [32]byte
-		x25519.ScalarMult(&dst, arr(s), arr(u))
-		if !bytes.Equal(dst[:], want) {
-			w.Fail("ScalarMult/value", fmt.Sprintf("ScalarMult(k=%x, u=%x)=%x want %x", s, u, dst[:], want), cas)
-		}
-		al := arr(u) // dst aliases base
-		x25519.ScalarMult(al, arr(s), al)
-		if !bytes.Equal(al[:], want) {
-			w.Fail("ScalarMult/alias", fmt.Sprintf("ScalarMult(dst=base) k=%x u=%x gave %x want %x", s, u, al[:], want), cas)
-		}
-		ks, kerr := scalar.NewFromBits(refx.Clamp(s))
-		if kerr != nil {
-			w.Fail("Scalar.SetBits", kerr.Error(), cas)
-			return
-		}
-		var mp, mo curve.MontgomeryPoint
-		copy(mp[:], u)
-		if ret := mo.Mul(&mp, ks); ret != &mo || !bytes.Equal(mo[:], want) {
-			w.Fail("MontgomeryPoint.Mul/value", fmt.Sprintf("MontgomeryPoint.Mul(u=%x, clamp(k=%x))=%x want %x", u, s, mo[:], want), cas)
-		}
-		priv, pub := x25519.PrivateKey(*arr(s)), x25519.PublicKey(*arr(u))
-		ss := priv.DiffieHellman(&pub)
-		if !bytes.Equal(ss[:], want) {
-			w.Fail("PrivateKey.DiffieHellman/value", fmt.Sprintf("DiffieHellman(k=%x, u=%x)=%x want %x", s, u, ss[:], want), cas)
-		}
-		if ss.IsZero() != zero {
-			w.Fail("SharedSecret.IsZero", fmt.Sprintf("IsZero()=%v for shared secret %x", ss.IsZero(), ss[:]), cas)
-		}
+		checkCase(c, w, s, u, want, zero)
 		if i%997 == 0 {
 			w.Sample(map[string]string{"op": "X25519", "scalar": hx(s), "u": hx(u), "class": cls})
 		}
